@@ -99,6 +99,7 @@ var acceptC09 = []accept{
 
 func runC09(p *eng.Prog, r *eng.Report, tier string) {
 	c := &cx{p, r, tier}
+	c.r.Floor("C09.35", "returns with a deferred release pending", deferredReleaseFindsTheLockHeld(c, "C09.35", ""), 20)
 	c.r.Floor("C09.34", "inner iterators closed by wrapping iterators", r17IteratorCloseReleases(c, "C09.34"), 1)
 	// C09.33 (= C11.5, imported): the separators of an address are looked up in the order of RFC 7622 and no
 	// index computed on the uncut string is applied to the cut one (slice bounds out of range on from="d/a@b")
